@@ -273,6 +273,15 @@ func (e *Env) GovAlong(desc string, along []*TxPlan, msgs ...sdk.Msg) bool {
 	return passed
 }
 
+// feePayerOf is the account the fee of tx is charged to before fee grants are considered: the
+// explicit fee payer when one is set (it must be among the signers), else the first signer.
+func feePayerOf(tx *TxPlan) string {
+	if tx.Spec.Payer != nil {
+		return tx.Spec.Payer.String()
+	}
+	return tx.Spec.Signers[0].Addr.String()
+}
+
 // ---------------------------------------------------------------------------------------------
 // message-tree helpers
 
